@@ -496,10 +496,39 @@ class Engine:
                         if v.get("isExtern"):
                             continue
                         bad.append("%s (%s)" % (k, SRC[s]))
+        # static call graph of the two units: no edge into an allocator, no cycle (direct or mutual recursion)
+        edges = {}
+        for s, o in objs:
+            rc, out, *_ = sh(["goto-instrument", "--call-graph", o], cwd=wd, timeout=120)
+            for line in out.splitlines():
+                m = re.match(r"^(\S+) -> (\S+)$", line.strip())
+                if m:
+                    edges.setdefault(m.group(1), set()).add(m.group(2))
+        allocs = {"malloc", "calloc", "realloc", "free", "alloca", "__builtin_alloca", "strdup", "strndup", "aligned_alloc", "posix_memalign"}
+        for f, cs in sorted(edges.items()):
+            for callee in sorted(cs & allocs):
+                bad.append("%s calls %s (allocator)" % (f, callee))
+        color = {}
+
+        def dfs(f, path):
+            color[f] = 1
+            for g in sorted(edges.get(f, ())):
+                if g not in edges:
+                    continue
+                if color.get(g) == 1:
+                    cyc = path[path.index(g):] + [g] if g in path else [f, g]
+                    bad.append("recursion: " + " -> ".join(cyc))
+                elif color.get(g) is None:
+                    dfs(g, path + [g])
+            color[f] = 2
+        for f in sorted(edges):
+            if color.get(f) is None:
+                dfs(f, [f])
+        nsym += sum(len(v) for v in edges.values())
         rec["stats"] = {"steps": nsym, "vccs": 1}
         if bad:
             rec["verdict"] = "fail"
-            rec["failed"] = [{"property": "symtab", "description": "PROP C17 " + ("" if "variable-length" in b else "writable static-lifetime symbol: ") + b} for b in bad[:8]]
+            rec["failed"] = [{"property": "symtab", "description": "PROP C17 " + ("" if ("variable-length" in b or "recursion" in b or "allocator" in b) else "writable static-lifetime symbol: ") + b} for b in bad[:8]]
             rec["confirmed"] = True
             rec["_leaves"] = {}
             rec["cex_inputs"] = {"writable_statics": bad}
